@@ -141,10 +141,14 @@ Lemma J_step_with : forall l ex w g,
 Proof.
   intros l ex w g Hs [Hr Ha Hn Hcl]. unfold step_out_with.
   destruct (negb (g_force g) && ex) eqn:Ediff.
-  - (* diff path: nothing changes *)
-    simpl. constructor; auto.
+  - (* diff path: nothing changes; the client is (re)claimed only when it is present *)
+    cbn [fst]. constructor; cbn [registry aliases clients claimed]; auto.
+    destruct (amem (g_client g) (clients w)) eqn:Em; cbn [andb]; [|exact Hcl].
+    match goal with |- Claimed_present {| claimed := (if ?b then _ else _) |} => destruct b end; [|exact Hcl].
+    unfold Claimed_present. cbn [clients claimed]. intros c Hin. apply In_add_str in Hin.
+    destruct Hin as [Hin|Hin]; [subst; exact Em | apply Hcl; exact Hin].
   - (* direct path *)
-    rewrite Hs. cbn [fst]. constructor; cbn [registry aliases clients claimed reg_or_empty aliases_of].
+    rewrite Hs. cbn [fst]. constructor; cbn [registry aliases clients specs claimed reg_or_empty aliases_of].
     + intros c cs Hl. destruct (str_eqb c (g_client g)) eqn:E.
       * apply str_eqb_eq in E. subst c. rewrite alookup_aset_same in Hl. inversion Hl; subst.
         exists (errs_of g). split; [apply alookup_aset_same | apply imports_in_errs].
